@@ -680,12 +680,7 @@ func compareRange(value, min, max Object) Object {
 }
 
 func evalBetweenOperand(exp Expression, env *Environment) Object {
-	identifier, ok := exp.(*Identifier)
-	if !ok {
-		return newError("identifier expected: got %q", exp.String())
-	}
-
-	val := evalIdentifier(identifier, env, true)
+	val := evalOperand(exp, env)
 	if val.Type() == ObjectTypeError {
 		return val
 	}
@@ -698,17 +693,22 @@ func evalBetweenOperand(exp Expression, env *Environment) Object {
 }
 
 func evalIdentifierOperand(exp Expression, env *Environment) Object {
-	identifier, ok := exp.(*Identifier)
-	if !ok {
-		return newError("identifier expected: got %q", exp.String())
+	return evalOperand(exp, env)
+}
+
+// evalOperand evaluates an operand of BETWEEN or IN: an attribute name, a :value placeholder,
+// a document path or a function call such as size(path)
+func evalOperand(exp Expression, env *Environment) Object {
+	switch node := exp.(type) {
+	case *Identifier:
+		return evalIdentifier(node, env, true)
+	case *IndexExpression:
+		return evalIndex(node, env)
+	case *CallExpression:
+		return evalFunctionCall(node, env)
 	}
 
-	val := evalIdentifier(identifier, env, true)
-	if val.Type() == ObjectTypeError {
-		return val
-	}
-
-	return val
+	return newError("identifier expected: got %q", exp.String())
 }
 
 func evalFunctionCall(node *CallExpression, env *Environment) Object {
